@@ -132,9 +132,12 @@ func builtinStringLastIndexOf(call FunctionCall) Value {
 	if 0 > start.int64 {
 		start.int64 = 0
 	}
-	end := int(start.int64) + len(target)
-	if end > length {
-		end = length
+	// start.int64 is saturated (1e300 is MaxInt64): compare before adding
+	end := length
+	if start.int64 < int64(length) {
+		if end = int(start.int64) + len(target); end > length {
+			end = length
+		}
 	}
 	return intValue(lastIndexRune(value[:end], target))
 }
@@ -437,11 +440,12 @@ func builtinStringSubstr(call FunctionCall) Value {
 		return stringValue("")
 	}
 
-	if start+length >= size {
+	if length >= size-start {
 		// Cap length to be to the end of the string
 		// start = 3, length = 5, size = 4 [0, 1, 2, 3]
 		// 4 - 3 = 1
 		// target[3:4]
+		// (length is saturated, Infinity is MaxInt64: start+length would wrap)
 		length = size - start
 	}
 
